@@ -289,10 +289,16 @@ class Ctx:
         self.rule = ""
         self.runs = []
         self.quick = (tier == "quick")
-        kf = os.path.join(VERIF, "known_findings.json")
+        # known findings: /verif/known_findings.json (merged, committed) plus known_findings.d/*.json
         self.known = []
-        if os.path.exists(kf):
-            self.known = [k for k in json.load(open(kf)).get("findings", []) if k.get("property") == pid]
+        files = [os.path.join(VERIF, "known_findings.json")] + sorted(glob.glob(os.path.join(VERIF, "known_findings.d", "*.json")))
+        seen = set()
+        for kf in files:
+            if os.path.exists(kf):
+                for k in json.load(open(kf)).get("findings", []):
+                    if k.get("property") == pid and (k["key"], k.get("status")) not in seen:
+                        seen.add((k["key"], k.get("status")))
+                        self.known.append(k)
 
     # ---------------- TLC ----------------
     def mc(self, module, cfg, name=None, expect_ok=True, **kw):
